@@ -37,7 +37,8 @@ def angle(ctx, name, lo=-360, hi=360):
     ctx.assume(and_(v > lo, v < hi))
     a = ctx.obj("Angle")
     ctx.setfield(a, "_deg", v)
-    ctx.setfield(a, "_tol", TOL)
+    # the comparison tolerance is whatever an earlier set_tolerance() left (default 1e-10): no operator may depend on it
+    ctx.setfield(a, "_tol", ctx.dyadic(name + "_tol", 0, 1, 40))
     return a, v
 
 
@@ -253,12 +254,9 @@ def h_binop(ctx, op, kind, inplace):
     zero_div = None
     if op in ("/", "%"):
         divisor = x if reflected else y
-        if op == "/":
-            # Angle divisors (and the self-test of the reflected form) compare with the tolerance
-            tolerant = (kind == "angle") or reflected
-            zero_div = (abs(divisor) < TOL) if tolerant else (divisor == 0)
-        else:
-            zero_div = divisor == 0
+        # division by zero, and only by zero, raises: a small divisor that is not zero gives the (reduced) quotient, whether
+        # it is a number or an Angle (the property does not excuse divisors below the comparison tolerance)
+        zero_div = divisor == 0
     if op == "**":
         ctx.assume(and_(x > 0, y > 0) if not ctx.native else (0 < x < 3 and 0 < y < 3))
     if op == "%":
@@ -364,6 +362,32 @@ def b_float(rng, tier):
         h = Angle(x / 15.0, ra=True)()
         ok3 = -360.0 < h < 360.0 and cong(x, h, 4.0)
         yield (x, ok and ok2 and ok3, (v, p, h))
+    # sexagesimal forms whose pieces sum, in binary64, to within an ulp of a whole turn (the sum may round onto +-360)
+    for d in (359, -359, 0, 719, -719, 359.0, 1079):
+        for m in (59, 59.99999999999999, 0, 59.5):
+            for sec in (59.99999999999999, 59.999999999999, 60 - 1e-9, 60.0, 0.0, 30.00000000000001):
+                forms = {"d,m,s": lambda: Angle(d, m, sec), "(d,m,s)": lambda: Angle((d, m, sec)), "[d,m,s]": lambda: Angle([d, m, sec]),
+                         "d,m": lambda: Angle(d, m + sec / 60.0), "h,m,s ra": lambda: Angle(d / 15.0, m, sec, ra=True),
+                         "(d,m,s,sign)": lambda: Angle((abs(d), m, sec, -1.0 if d < 0 else 1.0))}
+                for nm, mk in forms.items():
+                    v = mk()()
+                    sg = -1.0 if d < 0 else 1.0
+                    x = sg * (abs(d) + m / 60.0 + sec / 3600.0) if nm != "d,m" else sg * (abs(d) + (m + sec / 60.0) / 60.0)
+                    if nm == "h,m,s ra":
+                        x = sg * (abs(d) / 15.0 + m / 60.0 + sec / 3600.0) * 15.0
+                    ok = -360.0 < v < 360.0 and cong(x, v, 4.0) and (v == 0 or abs(v) < 1e-9 or abs(abs(v) - 360) < 1e-9 or (v > 0) == (x > 0))
+                    yield ((nm, d, m, sec), ok, v)
+    # division: only a zero divisor raises; a tiny one (below the comparison tolerance 1e-10) gives the reduced quotient
+    for x in (10.0, -250.5, 1e-12):
+        for y in (1e-11, -1e-12, 3e-200, 0.5, -7.0, 0.0, -0.0):
+            for nm, f in (("a/Angle", lambda: Angle(x) / Angle(y)), ("a/float", lambda: Angle(x) / y), ("float/a", lambda: x / Angle(y)),
+                          ("a/=Angle", lambda: Angle(x).__itruediv__(Angle(y)))):
+                try:
+                    r = f()()
+                    ok = y != 0 and -360 < r < 360 and (abs(x / y) > 1e15 or cong(x / y, r))
+                except ZeroDivisionError:
+                    r, ok = "ZeroDivisionError", y == 0
+                yield ((nm, x, y), ok, r)
     # operators
     vals = [0.0, 1e-12, -1e-12, 359.9999999, -359.9999999, 180.0, -180.0, 90.5, -45.25, 1.0, 2.0, 720.5]
     ops = {"+": lambda p, q: p + q, "-": lambda p, q: p - q, "*": lambda p, q: p * q}
@@ -378,3 +402,6 @@ def b_float(rng, tier):
                     ax, by = a(), (b() if isinstance(b, Angle) else b)
                     ok = -360 < r() < 360 and cong(f(ax, by), r()) and cong(f(by, ax), rr()) and a() == Angle(x)()
                     yield ((x, nm, y), ok, (r(), rr()))
+
+
+P.frame_check()
